@@ -280,8 +280,11 @@ func oracleC05(r *RunCtx, rec *BlockRecord, t *TxInfo) {
 	if t.HasReceipt {
 		create := tx.To() == nil
 		intr := IntrinsicGas(tx.Data(), tx.AccessList(), create)
-		if gu < intr || gu > tx.Gas() {
-			r.Violate("C05", "gas_used_bounds", nil, "gas used %d outside [intrinsic %d, limit %d]", gu, intr, tx.Gas())
+		// "at least the intrinsic gas" is about the gas consumed; the receipt shows it net of the storage refund, which
+		// is at most a fifth of the consumption: net gas used >= 4/5 of the intrinsic gas always, and >= the intrinsic
+		// gas itself whenever nothing was refunded (decided next to the reference execution, c02.go)
+		if gu*5 < intr*4 || gu > tx.Gas() {
+			r.Violate("C05", "gas_used_bounds", nil, "gas used %d outside [4/5 of intrinsic %d, limit %d]", gu, intr, tx.Gas())
 		}
 		if t.Res.Code == 0 && uint64(t.Res.GasUsed) != gu {
 			r.Violate("C05", "result_vs_receipt_gas", nil, "ExecTxResult.GasUsed %d != receipt gasUsed %d", t.Res.GasUsed, gu)
